@@ -365,6 +365,47 @@ func run(r *Rng, tier string, n int) {
 			}
 		}
 	}
+	// SVCB parameters in SECOND and third position: every key (also the reserved 65535, unassigned and
+	// private ones) after every other key, ascending, equal and descending, with empty and short values
+	{
+		keys := []int{0, 1, 2, 3, 4, 5, 6, 7, 8, 9, 100, 65279, 65280, 65534, 65535}
+		val := func(k int) []byte {
+			switch k {
+			case 0:
+				return []byte{0, 1}
+			case 1:
+				return []byte{2, 'h', '2'}
+			case 2, 8:
+				return nil
+			case 3:
+				return []byte{1, 187}
+			case 4:
+				return []byte{192, 0, 2, 1}
+			case 6:
+				return make([]byte, 16)
+			}
+			return []byte{1}
+		}
+		for _, k1 := range keys {
+			for _, k2 := range keys {
+				for _, empty2 := range []bool{false, true} {
+					rd := []byte{0, 1, 0}
+					v1, v2 := val(k1), val(k2)
+					if empty2 {
+						v2 = nil
+					}
+					rd = append(rd, byte(k1>>8), byte(k1), 0, byte(len(v1)))
+					rd = append(rd, v1...)
+					rd = append(rd, byte(k2>>8), byte(k2), 0, byte(len(v2)))
+					rd = append(rd, v2...)
+					g := hdr(0, 1)
+					g = append(g, 1, 's', 0, 0, 65, 0, 1, 0, 0, 0, 0, byte(len(rd)>>8), byte(len(rd)))
+					g = append(g, rd...)
+					hostile(g, k2 >= 65279 || k1 == k2, "svcb-key-sequence")
+				}
+			}
+		}
+	}
 	// EDNS0 Client Subnet: family x source prefix length x address octets present (fewer, exactly, more than
 	// the prefix needs), the option being the last thing in the message and also followed by another record
 	for fam, bits := range map[int]int{1: 32, 2: 128, 0: 0, 3: 8} {
